@@ -7,9 +7,24 @@ from . import common as c
 
 HEXD = b'0123456789ABCDEF'
 
-def case(line, p1, p2, decode=0, fix=1):
+STATE, MTYPE = 1, 2      # digest flags: include the private state hint / the sentence-level message type
+
+def case(line, p1, p2, decode=0, fix=1, flags=0):
+    """flags = 0: the digest covers the outcome of every line without the state hint (a refactoring of
+    the parser's private representation must not disturb it) and without the sentence-level message
+    type (property C19's business, where the unchanged tree has a recorded finding)"""
     assert 0 <= p1 < len(line) and 0 <= p2 < len(line)
-    return 'A %d %d %d %d %s' % (p1, p2, decode, fix, bytes(line).hex())
+    return 'A %d %d %d %d %d %s' % (p1, p2, decode, fix, flags, bytes(line).hex())
+
+import re
+_M = re.compile(r'(?<= )m\d+(?= )')
+def normal(case_line, out_line):
+    """an expanded line's output reduced to what the sweep's digest covers"""
+    if not case_line.startswith('A '): return out_line
+    flags = int(case_line.split(' ')[5])
+    if not flags & STATE: out_line = out_line.split(' ; (s')[0]
+    if not flags & MTYPE: out_line = _M.sub('m_', out_line)
+    return out_line
 
 def msg_case(payload, p1, p2):
     assert 0 <= p1 < len(payload) and 0 <= p2 < len(payload)
@@ -34,7 +49,7 @@ def expand(case_line):
                 b[int(p1)] = y; b[int(p2)] = z
                 out.append('M ' + bytes(b).hex())
         return out
-    _, p1, p2, d, fix, hx = case_line.split(' ')
+    _, p1, p2, d, fix, _flags, hx = case_line.split(' ')
     p1, p2, fix = int(p1), int(p2), fix == '1'
     b = bytearray(bytes.fromhex(hx))
     star = b.rfind(b'*')
@@ -53,11 +68,11 @@ def expand(case_line):
             out.append('H'); out.append('L 0 %s %s' % (d, bytes(b).hex()))
     return out
 
-def adjacent(line, decode=0, fix=1, gaps=(1,), lo=1, hi=None):
+def adjacent(line, decode=0, fix=1, gaps=(1,), lo=1, hi=None, flags=0):
     """sweeps over the byte pairs (i, i+g) of a sentence, checksum field excluded when it is recomputed"""
     star = bytes(line).rfind(b'*')
     hi = (star if fix and star > 0 else len(line)) if hi is None else hi
-    return [case(line, i, i + g, decode, fix) for g in gaps for i in range(lo, hi - g)]
+    return [case(line, i, i + g, decode, fix, flags) for g in gaps for i in range(lo, hi - g)]
 
 def is_sweep(x):
     return x.startswith(('A ', 'B ', 'F '))
@@ -74,8 +89,8 @@ def self_check(case_line, impl_digest, model_digest, feat='std', prof='debug'):
     """glue check: the digests printed for a sweep must be the digests of its expansion, computed
     here from the ordinary per-line outputs of both executables"""
     sub = expand(case_line)
-    io = [x for x, c_ in zip(c.run_impl(sub, feat, prof), sub) if c_ != 'H']
-    mo = [x for x, c_ in zip(c.run_model(sub, feat, 'asis'), sub) if c_ != 'H']
+    io = [normal(case_line, x) for x, c_ in zip(c.run_impl(sub, feat, prof), sub) if c_ != 'H']
+    mo = [normal(case_line, x) for x, c_ in zip(c.run_model(sub, feat, 'asis'), sub) if c_ != 'H']
     di, dm = digest(case_line[0], io), digest(case_line[0], mo)
     if di != impl_digest or dm != model_digest:
         raise RuntimeError('sweep self-check failed for %s: harness %s vs expansion %s; driver %s vs expansion %s'
